@@ -574,7 +574,7 @@ class G:
                 opts += [(1, "bare_raising")]
         if ctx.fun is not None:
             if ctx.depth < self.p["max_depth"]:
-                opts += [(2, "early_return")]
+                opts += [(4, "early_return")]
         k = self.weighted(opts)
         if k in ("if", "for_range", "while", "for_over", "match", "handle_def", "handle_stmt", "early_return"):
             self.branch_budget -= 1
@@ -891,7 +891,7 @@ class G:
         val = None if ret is None else self.expr(ret, sc, 1, True)
         # the other branch: absent, a statement, or a return of its own (one-line and block form; the if is never the last
         # statement of the function because more statements or the tail follow)
-        k = self.pick(["none", "none", "print", "ret", "value"]) if ret is not None else self.pick(["none", "none", "print"])
+        k = self.pick(["none", "none", "print", "ret", "value", "value"]) if ret is not None else self.pick(["none", "none", "print"])
         if k == "none":
             el = None
         elif k == "print":
@@ -902,8 +902,8 @@ class G:
         else:
             el = [("ret", self.expr(ret, sc, 1, True))]
         if el is not None and self.chance(30):
-            return [("if", ("not", BOOL, c), el, [("ret", val)], self.pick(["block", "line"]))]
-        return [("if", c, [("ret", val)], el, self.pick(["block", "line"]))]
+            return [("if", ("not", BOOL, c), el, [("ret", val)], self.pick(["block", "line", "line"]))]
+        return [("if", c, [("ret", val)], el, self.pick(["block", "line", "line"]))]
 
     # -- definitions -----------------------------------------------------------------------------------------
     def gen_exceptions(self):
